@@ -486,15 +486,13 @@ def tiling(T, toks, lines, vin=_plain_in):
                         "expected": "only line-leading indentation or backslash-newline outside tokens"}
             pos = en
         if t.type == T.NEWLINE:
-            if not open_line:
-                return {"kind": "NEWLINE-without-logical-line", "observed": f"NEWLINE #{i} at {st} with no significant token since the previous NEWLINE",
-                        "expected": "exactly one NEWLINE per logical line"}
+            # a NEWLINE with no open logical line is not excluded by the property's wording (C09 compares against CPython)
             open_line = False
         elif t.type in (T.INDENT, T.DEDENT, T.ENDMARKER):
             if open_line:
                 return {"kind": "logical-line-without-NEWLINE", "observed": f"{t.type.name} #{i} at {st} while a logical line is open",
                         "expected": "exactly one NEWLINE per logical line"}
-        elif t.type not in (T.NL, T.COMMENT, T.WS):
+        elif t.type not in (T.NL, T.COMMENT, T.WS) and not (t.type == T.ERRORTOKEN and t.string.isspace()):
             open_line = True
     end = (len(lines), len(lines[-1])) if lines else (1, 0)
     bad = gap_problem(pos, end)
